@@ -31,7 +31,9 @@ macro_rules! run { ($cmd:expr, $frame:expr, |$v:ident| $body:block) => {
 pub fn resp(a: &[String]) {
     let wire = args_bytes(&a[1..2])[0].clone();
     let rs = receive_all(wire);
-    let frame = match rs.into_iter().next() {
+    // optional third argument `skip=<n>`: the typed reply is the (n+1)-th response on the connection (earlier ones only pass through it)
+    let skip: usize = a.get(2).and_then(|s| s.strip_prefix("skip=")).map(|n| n.parse().unwrap()).unwrap_or(0);
+    let frame = match rs.into_iter().nth(skip) {
         Some(Ok(Some(resp))) => match resp.into_single_frame() { Ok(f) => f, Err(e) => { println!("protocol=ack {}", e.code); return; } },
         other => { println!("protocol={:?}", other.map(|x| x.map(|y| y.is_some()))); return; }
     };
